@@ -18,6 +18,7 @@
 #define __TBB_tbb_allocator_H
 
 #include "oneapi/tbb/detail/_utils.h"
+#include "oneapi/tbb/detail/_exception.h"
 #include "detail/_namespace_injection.h"
 #include <cstdlib>
 #include <utility>
@@ -57,6 +58,10 @@ public:
 
     //! Allocate space for n objects.
     __TBB_nodiscard T* allocate(std::size_t n) {
+        // n * sizeof(value_type) must be representable: a wrapped product would be served by a tiny block
+        if (n > ~std::size_t(0) / sizeof(value_type)) {
+            throw_exception(exception_id::bad_alloc);
+        }
         return static_cast<T*>(r1::allocate_memory(n * sizeof(value_type)));
     }
 
